@@ -6,8 +6,8 @@ package engine
 
 import (
 	"fmt"
-	"os"
 	"go/types"
+	"os"
 	"runtime"
 	"sort"
 	"strings"
@@ -21,6 +21,7 @@ import (
 	"verif/internal/dom"
 	"verif/internal/isa"
 	"verif/internal/load"
+	"verif/internal/rules"
 )
 
 // Spec pins instruction bytes: offset from PC -> value.
@@ -752,6 +753,8 @@ func (e *Engine) initGlobals() {
 	written := map[*ssa.Global]bool{}
 	var visit func(fn *ssa.Function)
 	seenFn := map[*ssa.Function]bool{}
+	var initFns map[*ssa.Function]bool
+	collect := true
 	visit = func(fn *ssa.Function) {
 		if fn == nil || seenFn[fn] || fn.Blocks == nil {
 			return
@@ -760,7 +763,11 @@ func (e *Engine) initGlobals() {
 		for _, af := range fn.AnonFuncs {
 			visit(af)
 		}
-		isInit := fn.Name() == "init" && fn.Pkg == sp
+		if collect {
+			return
+		}
+		// package initialisation = init, init#N and helpers only they call
+		isInit := initFns[fn] && fn.Pkg == sp
 		for _, b := range fn.Blocks {
 			for _, in := range b.Instrs {
 				for _, op := range in.Operands(nil) {
@@ -792,24 +799,31 @@ func (e *Engine) initGlobals() {
 			}
 		}
 	}
-	for _, pk := range e.P.Prog.AllPackages() {
-		if pk.Pkg.Path() != load.ModulePath && !strings.HasPrefix(pk.Pkg.Path(), load.ModulePath+"/") {
-			continue
-		}
-		for _, m := range pk.Members {
-			switch x := m.(type) {
-			case *ssa.Function:
-				visit(x)
-			case *ssa.Type:
-				for _, tt := range []types.Type{x.Type(), types.NewPointer(x.Type())} {
-					ms := e.P.Prog.MethodSets.MethodSet(tt)
-					for i := 0; i < ms.Len(); i++ {
-						visit(e.P.Prog.MethodValue(ms.At(i)))
+	walk := func() {
+		for _, pk := range e.P.Prog.AllPackages() {
+			if pk.Pkg.Path() != load.ModulePath && !strings.HasPrefix(pk.Pkg.Path(), load.ModulePath+"/") {
+				continue
+			}
+			for _, m := range pk.Members {
+				switch x := m.(type) {
+				case *ssa.Function:
+					visit(x)
+				case *ssa.Type:
+					for _, tt := range []types.Type{x.Type(), types.NewPointer(x.Type())} {
+						ms := e.P.Prog.MethodSets.MethodSet(tt)
+						for i := 0; i < ms.Len(); i++ {
+							visit(e.P.Prog.MethodValue(ms.At(i)))
+						}
 					}
 				}
 			}
 		}
 	}
+	walk()
+	initFns = rules.InitClosure(seenFn)
+	collect = false
+	seenFn = map[*ssa.Function]bool{}
+	walk()
 	for _, m := range sp.Members {
 		if g, ok := m.(*ssa.Global); ok && !strings.HasPrefix(g.Name(), "init$") && !written[g] {
 			e.InitOnly["global:"+g.RelString(nil)] = true
